@@ -99,8 +99,13 @@ mod verif_kani {
     }
 
     // ---- PmTree::new on a location without a database ----------------------------------------------------------
+    // SledDB::load (utils, real code) builds its "Database was not recovered: <path>" message with format!; string
+    // formatting of a path is beyond CBMC (10 GB exhausted) and the text is irrelevant (it ends in a dropped error
+    // value), so `std::fmt::format` is stubbed by the empty string in this one harness.
+    fn no_text(_args: std::fmt::Arguments<'_>) -> String { String::new() }
     #[kani::proof]
     #[kani::unwind(10)]
+    #[kani::stub(std::fmt::format, no_text)]
     fn pm_new_fresh() {
         let r = PmTree::new(D, PoseidonHash::default_leaf(), PmtreeConfig(Config::new()));
         kani::assert(r.is_ok(), "new/fresh-tree-accepted");
